@@ -1,12 +1,17 @@
 """E2 -- stateless DFS over choice prefixes with iterative preemption bounding and a state cache.
 
-run_fn(prefix, state_fn, cut_fn) must execute the harness once under a fresh Scheduler, replaying
-`prefix` and then taking default choices, and return (sched, obs) where obs is a dict with at least
+run_fn(prefix, want_state, cut_fn) executes the harness once under a fresh Scheduler, replaying
+`prefix` and then taking default choices, and returns (sched, obs) where obs is a dict with
 'violations' (list of (signature, text)) and 'outcome_key' (hashable summary of what was observed).
+
+Soundness of the cache: a path is cut when it reaches a canonical state already expanded with <= the
+current preemption cost; the state key contains every thread's frames+locals, the shared objects and
+the oracle monitor, so cutting never merges paths the oracle could tell apart.
 """
-import random
-import time
 import hashlib
+import multiprocessing
+import os
+import time
 
 
 class Stats(object):
@@ -23,31 +28,42 @@ class Stats(object):
         self.sched_outcomes = {}
         self.wall = 0.0
         self.nontrivial_schedules = 0
+        self.rounds = 0
 
     def as_dict(self):
         return dict(executions=self.executions, completed=self.completed, cut=self.cut, states=self.states,
                     transitions=self.transitions, max_points=self.max_points,
                     distinct_outcomes=len(self.outcomes), caps_hit=self.caps,
                     bound_completed=self.bound_completed, sched_outcomes=self.sched_outcomes,
-                    nontrivial_schedules=self.nontrivial_schedules, wall_s=round(self.wall, 2))
+                    nontrivial_schedules=self.nontrivial_schedules, wall_s=round(self.wall, 2),
+                    rounds=self.rounds)
 
 
 class Explorer(object):
     def __init__(self, run_fn, bound=None, use_cache=True, max_execs=None, max_seconds=None, seed=0,
-                 stop_on_violation=True, keep_samples=3):
+                 stop_on_violation=True, keep_samples=3, visited=None):
         self.run_fn = run_fn
         self.bound = bound
         self.use_cache = use_cache
         self.max_execs = max_execs
         self.max_seconds = max_seconds
-        self.rng = random.Random(seed)
-        self.visited = {}
+        self.visited = {} if visited is None else visited
+        self.new_visited = None      # when a dict: log of entries added/lowered (parallel mode)
         self.edges = set()
         self.stats = Stats()
-        self.violations = []      # (signature, text, prefix)
+        self.violations = []      # (signature, text, choices)
         self.stop_on_violation = stop_on_violation
         self.samples = []
         self.keep_samples = keep_samples
+        self.stack = []
+
+    def _must_stop(self):
+        sv = self.stop_on_violation
+        if not self.violations or not sv:
+            return False
+        if callable(sv):
+            return any(sv(v[0]) for v in self.violations)
+        return True
 
     def _cut(self, key, cost, idx):
         if not self.use_cache or key is None:
@@ -56,13 +72,20 @@ class Explorer(object):
         if old is not None and old <= cost:
             return True
         self.visited[key] = cost
+        if self.new_visited is not None:
+            self.new_visited[key] = cost
         return False
 
-    def explore(self, initial_prefixes=None):
+    def explore(self, initial_prefixes=None, budget_execs=None):
+        """DFS from the given prefixes.  Returns stats; leftover work (when a budget/cap stops the
+        search) stays in self.stack."""
         t0 = time.time()
         st = self.stats
-        stack = [list(p) for p in (initial_prefixes or [[]])]
+        self.stack = stack = [list(p) for p in (initial_prefixes if initial_prefixes is not None else [[]])]
+        n0 = st.executions
         while stack:
+            if budget_execs is not None and st.executions - n0 >= budget_execs:
+                break
             if self.max_execs is not None and st.executions >= self.max_execs:
                 st.caps.append("max_execs=%d" % self.max_execs)
                 break
@@ -75,9 +98,10 @@ class Explorer(object):
             pts = sched.points
             st.max_points = max(st.max_points, len(pts))
             st.sched_outcomes[sched.outcome] = st.sched_outcomes.get(sched.outcome, 0) + 1
+            choices_taken = [p.chosen for p in pts if p.chosen >= 0]
             if sched.errors:
-                self.violations.append(("HARNESS", "; ".join(sched.errors), list(prefix)))
-                if self.stop_on_violation:
+                self.violations.append(("HARNESS", "; ".join(sched.errors), choices_taken))
+                if self._must_stop():
                     break
             if sched.outcome == "cut":
                 st.cut += 1
@@ -85,16 +109,15 @@ class Explorer(object):
                 st.completed += 1
                 ok = obs.get("outcome_key")
                 st.outcomes[ok] = st.outcomes.get(ok, 0) + 1
-                if any(p.chosen > 0 for p in pts):
+                if any(c > 0 for c in choices_taken):
                     st.nontrivial_schedules += 1
                 if len(self.samples) < self.keep_samples:
-                    self.samples.append({"choices": [p.chosen for p in pts if p.chosen >= 0],
-                                         "outcome": sched.outcome, "observed": repr(ok)[:300]})
+                    self.samples.append({"choices": choices_taken, "outcome": sched.outcome,
+                                         "observed": repr(ok)[:300]})
             for sig, text in obs.get("violations", ()):
-                self.violations.append((sig, text, [p.chosen for p in pts if p.chosen >= 0]))
-            if self.violations and self.stop_on_violation:
+                self.violations.append((sig, text, choices_taken))
+            if self._must_stop():
                 break
-            # expand alternatives at the points beyond the prefix
             choices = [p.chosen for p in pts]
             new = []
             for i in range(len(prefix), len(pts)):
@@ -103,20 +126,125 @@ class Explorer(object):
                     break
                 if p.key is not None:
                     self.edges.add((p.key, 0))
-                preempt = 1 if (p.cur_enabled and p.kind != "env") else 0
-                if self.bound is not None and p.cost_before + preempt > self.bound:
-                    continue
-                alts = list(range(1, p.n))
-                for alt in alts:
+                for alt in range(1, p.n):
+                    c = 0 if p.costs is None else p.costs[alt]
+                    if self.bound is not None and p.cost_before + c > self.bound:
+                        continue
                     if p.key is not None:
                         self.edges.add((p.key, alt))
                     new.append(choices[:i] + [alt])
-            # DFS: deepest alternatives first (they share the longest prefix with what just ran)
             stack.extend(new)
         st.states = len(self.visited)
         st.transitions = len(self.edges)
+        st.wall += time.time() - t0
+        if not st.caps and not stack:
+            st.bound_completed = "unbounded" if self.bound is None else self.bound
+        return st
+
+
+# ---------------------------------------------------------------------------------- parallel search
+_G = {}
+
+
+def _worker(task):
+    prefixes, budget = task
+    ex = Explorer(_G["run_fn"], bound=_G["bound"], visited=_G["visited"], stop_on_violation=_G["stop"],
+                  keep_samples=1)
+    ex.new_visited = {}
+    ex.explore(prefixes, budget_execs=budget)
+    st = ex.stats
+    return (ex.new_visited, ex.edges, ex.stack, ex.violations, ex.samples,
+            dict(executions=st.executions, completed=st.completed, cut=st.cut, max_points=st.max_points,
+                 outcomes=st.outcomes, sched_outcomes=st.sched_outcomes,
+                 nontrivial=st.nontrivial_schedules))
+
+
+class ParallelExplorer(object):
+    """Round-based parallel DFS.  Each round forks a pool (workers inherit the master's visited map
+    copy-on-write), every worker explores the subtrees of its prefixes with a budget, the master merges
+    the new visited entries (min cost), edges, outcomes and leftover prefixes."""
+
+    def __init__(self, run_fn, bound=None, procs=None, task_execs=150, max_seconds=None, max_execs=None,
+                 stop_on_violation=True, warmup_execs=40):
+        self.run_fn = run_fn
+        self.bound = bound
+        self.procs = procs or int(os.environ.get("VERIF_PROCS", "16"))
+        self.task_execs = task_execs
+        self.max_seconds = max_seconds
+        self.max_execs = max_execs
+        self.stop = stop_on_violation
+        self.warmup = warmup_execs
+        self.stats = Stats()
+        self.violations = []
+        self.samples = []
+        self.visited = {}
+        self.edges = set()
+
+    def _must_stop(self):
+        sv = self.stop
+        if not self.violations or not sv:
+            return False
+        if callable(sv):
+            return any(sv(v[0]) for v in self.violations)
+        return True
+
+    def explore(self):
+        t0 = time.time()
+        st = self.stats
+        ex = Explorer(self.run_fn, bound=self.bound, visited=self.visited, stop_on_violation=self.stop)
+        ex.explore([[]], budget_execs=self.warmup)
+        frontier = ex.stack
+        self.edges |= ex.edges
+        self.violations.extend(ex.violations)
+        self.samples.extend(ex.samples)
+        for k in ("executions", "completed", "cut"):
+            setattr(st, k, getattr(ex.stats, k))
+        st.max_points = ex.stats.max_points
+        st.outcomes = dict(ex.stats.outcomes)
+        st.sched_outcomes = dict(ex.stats.sched_outcomes)
+        st.nontrivial_schedules = ex.stats.nontrivial_schedules
+        ctx = multiprocessing.get_context("fork")
+        while frontier and not self._must_stop():
+            if self.max_seconds is not None and time.time() - t0 > self.max_seconds:
+                st.caps.append("max_seconds=%s" % self.max_seconds)
+                break
+            if self.max_execs is not None and st.executions >= self.max_execs:
+                st.caps.append("max_execs=%s" % self.max_execs)
+                break
+            st.rounds += 1
+            _G.update(run_fn=self.run_fn, bound=self.bound, visited=self.visited, stop=self.stop)
+            # deepest prefixes last in the stack; hand them out round-robin so every worker gets a mix
+            ntasks = min(len(frontier), self.procs * 4)
+            buckets = [[] for _ in range(ntasks)]
+            for i, p in enumerate(frontier):
+                buckets[i % ntasks].append(p)
+            tasks = [(b, self.task_execs) for b in buckets]
+            with ctx.Pool(min(self.procs, ntasks)) as pool:
+                results = pool.map(_worker, tasks, 1)
+            frontier = []
+            for newv, edges, left, viols, samples, d in results:
+                for k, c in newv.items():
+                    old = self.visited.get(k)
+                    if old is None or c < old:
+                        self.visited[k] = c
+                self.edges |= edges
+                frontier.extend(left)
+                self.violations.extend(viols)
+                if len(self.samples) < 4:
+                    self.samples.extend(samples)
+                st.executions += d["executions"]
+                st.completed += d["completed"]
+                st.cut += d["cut"]
+                st.max_points = max(st.max_points, d["max_points"])
+                st.nontrivial_schedules += d["nontrivial"]
+                for k, v in d["outcomes"].items():
+                    st.outcomes[k] = st.outcomes.get(k, 0) + v
+                for k, v in d["sched_outcomes"].items():
+                    st.sched_outcomes[k] = st.sched_outcomes.get(k, 0) + v
+        st.states = len(self.visited)
+        st.transitions = len(self.edges)
         st.wall = time.time() - t0
-        if not st.caps:
+        if not st.caps and not frontier:
             st.bound_completed = "unbounded" if self.bound is None else self.bound
         return st
 
